@@ -456,6 +456,9 @@ def check(report: Report, repo: Repo) -> None:
         d = first_diff(got, exp) if got is not None else "no output"
         report.add("R1-rewrite", cons, got == exp, f"[{sname}] rewritten graph must equal the recipe; first difference: {d}", str(got)[:500], str(exp)[:500])
         report.add("R1-lint", cons, g.linted >= 1, f"[{sname}] graph.lint() runs on the result", g.linted, ">=1", nontrivial=False)
+    from .c17 import check_root_entry
+
+    check_root_entry(report, repo, "R3-unit_scale")  # the transform is only applied at all if TorchDynamo traces the root
     report.floor("scenario graphs executed", n_sc, 7)
 
     # ---- R1 call forms of torch.nn's own wrapper modules (what TorchDynamo inlines for nn.Softmax, nn.GELU, ...):
